@@ -180,14 +180,18 @@ DoConnect(s, other, tc, oc, right, name, pfx, DevNoUsers, DevNoBlockMember) ==
         IF l \notin SeqSet(oc)
         THEN DoAddGate(acc, m[l], other.g[l].t, mq(other.g[l].o))
         ELSE IF right
-             THEN LET ops == mq(other.g[l].o)
-                  IN [acc EXCEPT !.g = [acc.g EXCEPT ![m[l]] = Gate(other.g[l].t, ops)],
-                                 !.u = IF DevNoUsers THEN acc.u
-                                       ELSE [x \in DOMAIN acc.u |-> acc.u[x] \o Rep(m[l], Occ(ops, x))]]
+             THEN \* the gate is written over EVERY base input it is paired with
+                  LET ops == mq(other.g[l].o)
+                      targets == SelectSeq(tc, LAMBDA y : \E j \in DOMAIN tc : tc[j] = y /\ oc[j] = l)
+                  IN FoldLeft(LAMBDA a2, y :
+                        [a2 EXCEPT !.g = [a2.g EXCEPT ![y] = Gate(other.g[l].t, ops)],
+                                   !.u = IF DevNoUsers THEN a2.u
+                                         ELSE [x \in DOMAIN a2.u |-> a2.u[x] \o Rep(y, Occ(ops, x))]],
+                        acc, targets)
              ELSE acc
       s1 == FoldLeft(step, s, order)
       newNonInput == {m[l] : l \in {x \in DOMAIN other.g \ SeqSet(oc) : other.g[x].t # "INPUT"}}
-      overwritten == {m[l] : l \in {x \in SeqSet(oc) : other.g[x].t # "INPUT"}}
+      overwritten == {tc[j] : j \in {x \in DOMAIN tc : other.g[oc[x]].t # "INPUT"}}
       members == IF right /\ ~DevNoBlockMember THEN newNonInput \cup overwritten ELSE newNonInput
       outs == FilterOut(s.o, SeqSet(tc)) \o mq(FilterOut(other.o, SeqSet(oc)))
       ins == SelectSeq(s.i, LAMBDA x : s1.g[x].t = "INPUT") \o mq(FilterOut(other.i, SeqSet(oc)))
